@@ -710,6 +710,10 @@ pub fn run() {
     }
     let mut rep = Reporter::new("C31", args.seed);
     if let Some(case) = args.replay_case() {
+        // a replay descriptor of another stage / another test of this property: not ours, nothing to do
+        if case["engine"].as_str() != Some("hv_sim_b") || case["test"].as_str() != Some("c31_slices_sim") {
+            return;
+        }
         let e = match case["flow"].as_str().unwrap_or("") {
             "basic" => replay::<Basic>("C31", TEST, &case),
             "atomic" => replay::<Atomic>("C31", TEST, &case),
